@@ -2,6 +2,7 @@ import LJT.Model.Huff
 import LJT.Model.Lossless
 import LJT.Model.Bits
 import LJT.Model.SeqHuff
+import LJT.Model.Arith
 import LJT.Gen.Tables
 /-! An interchange-format decoder written from ITU-T T.81 (not from libjpeg-turbo's decoder):
 marker parser with the syntax checks of Annex B, Huffman table construction of Annex C
@@ -185,6 +186,9 @@ structure Tables where
   dc : Array (Option Tbl) := Array.replicate 4 none
   ac : Array (Option Tbl) := Array.replicate 4 none
   qt : Array (Option (List Nat)) := Array.replicate 4 none
+  dcL : Array Nat := Array.replicate 16 0
+  dcU : Array Nat := Array.replicate 16 1
+  acK : Array Nat := Array.replicate 16 5
 
 /-- decode the entropy-coded data of one scan.  `ecs` = the intervals between RSTn markers -/
 def decodeScan (f : Frame) (tabs : Tables) (sc : Scan) (ri : Nat) (intervals : List (List Nat)) (st0 : Store)
@@ -280,6 +284,129 @@ def decodeScan (f : Frame) (tabs : Tables) (sc : Scan) (ri : Nat) (intervals : L
     if eobrun != 0 then return .error "EOBRUN extends beyond the restart interval / scan"
     if bits.length ≥ 8 then return .error s!"{bits.length} unread bits at the end of an entropy-coded interval"
     if bits.any (fun b => !b) then return .error "padding bits at the end of an entropy-coded interval are not all 1"
+  return .ok st
+
+/-- signed value of a 16-bit quantity -/
+def s16 (x : Nat) : Int := if x % 65536 ≥ 32768 then ((x % 65536 : Nat) : Int) - 65536 else ((x % 65536 : Nat) : Int)
+
+/-- AC refinement of one block with the arithmetic decoder (G.2 as coded in decode_mcu_AC_refine) -/
+def arithACRefine (a : Arith.AS) (st : Store) (c blk tbl ss se al : Nat) : Option (Store × Arith.AS) := Id.run do
+  let p1 : Int := (2 : Int) ^ al
+  let m1 : Int := - p1
+  let nat := Gen.naturalOrder
+  let mut a := a
+  let mut st := st
+  -- last nonzero coefficient of the band (or below)
+  let mut kex := se
+  while kex > 0 && st.get c blk (nat.getD kex 0) == 0 do kex := kex - 1
+  let mut k := ss
+  let mut fuel := 70
+  while k ≤ se && fuel > 0 do
+    fuel := fuel - 1
+    let mut bin := Arith.acBase tbl + 3 * (k - 1)
+    if k > kex then
+      let (eob, a1) := Arith.decode a bin
+      a := a1
+      if eob == 1 then break
+    let mut go := true
+    let mut f2 := 70
+    while go && f2 > 0 do
+      f2 := f2 - 1
+      let pos := nat.getD k 0
+      let cur := st.get c blk pos
+      if cur != 0 then
+        let (b, a1) := Arith.decode a (bin + 2)
+        a := a1
+        if b == 1 then st := st.set c blk pos (if cur < 0 then cur + m1 else cur + p1)
+        go := false
+      else
+        let (nz, a1) := Arith.decode a (bin + 1)
+        a := a1
+        if nz == 1 then
+          let (sg, a2) := Arith.decode a Arith.fixedBin
+          a := a2
+          st := st.set c blk pos (if sg == 1 then m1 else p1)
+          go := false
+        else
+          bin := bin + 3; k := k + 1
+          if k > se then return none
+    k := k + 1
+  return some (st, a)
+
+/-- decode the entropy-coded data of one arithmetic-coded scan (SOF9 / SOF10) -/
+def decodeScanArith (f : Frame) (tabs : Tables) (sc : Scan) (ri : Nat) (intervals : List (List Nat)) (st0 : Store)
+    (hmax vmax : Nat) : Except String Store := Id.run do
+  let prog := f.sof == 0xCA
+  let ns := sc.comps.length
+  let compOf := fun (i : Nat) => f.comps.getD i ⟨0, 1, 1, 0⟩
+  let mcusX := if ns == 1 then
+      let c := compOf (sc.comps.getD 0 ⟨0, 0, 0⟩).ci
+      ceilDiv (ceilDiv (f.width * c.h) hmax) 8
+    else ceilDiv f.width (8 * hmax)
+  let mcusY := if ns == 1 then
+      let c := compOf (sc.comps.getD 0 ⟨0, 0, 0⟩).ci
+      ceilDiv (ceilDiv (f.height * c.v) vmax) 8
+    else ceilDiv f.height (8 * vmax)
+  let total := mcusX * mcusY
+  let nIntervals := if ri == 0 then 1 else ceilDiv total ri
+  if intervals.length != nIntervals then
+    return .error s!"restart markers: {intervals.length} intervals found, {nIntervals} expected"
+  let mut st := st0
+  let mut mcu := 0
+  let mut ivs := intervals
+  while mcu < total do
+    let mut a := Arith.AS.init (ivs.headD [])
+    ivs := ivs.tail
+    let mut last : Array Nat := Array.replicate 4 0
+    let mut ctx : Array Nat := Array.replicate 4 0
+    let cnt := if ri == 0 then total else min ri (total - mcu)
+    for _ in [0:cnt] do
+      let my := mcu / mcusX
+      let mx := mcu % mcusX
+      for i in [0:ns] do
+        let s := sc.comps.getD i ⟨0, 0, 0⟩
+        let c := compOf s.ci
+        let bh := if ns == 1 then 1 else c.h
+        let bv := if ns == 1 then 1 else c.v
+        let wbp := st.wb.getD s.ci 1
+        for by_ in [0:bv] do
+          for bx in [0:bh] do
+            let blk := (my * bv + by_) * wbp + (mx * bh + bx)
+            let doDC := !prog || sc.ss == 0
+            if doDC && !(prog && sc.ah != 0) then
+              match Arith.decodeDC a s.td (ctx.getD i 0) (tabs.dcL.getD s.td 0) (tabs.dcU.getD s.td 1) with
+              | none => return .error "arithmetic DC: magnitude overflow"
+              | some (d, cx, a1) =>
+                a := a1
+                ctx := ctx.setIfInBounds i cx
+                let nv := ((((last.getD i 0 : Nat) : Int) + d) % 65536).toNat
+                last := last.setIfInBounds i nv
+                st := st.set s.ci blk 0 (s16 (nv * 2 ^ sc.al))
+            else if doDC then
+              let (b, a1) := Arith.decode a Arith.fixedBin
+              a := a1
+              if b == 1 then
+                let cur := st.get s.ci blk 0
+                -- `|= p1` on the two's-complement value
+                st := st.set s.ci blk 0 (s16 (((cur % 65536).toNat ||| 2 ^ sc.al)))
+            if !prog then
+              match Arith.decodeACband a s.ta (tabs.acK.getD s.ta 5) 1 63 with
+              | none => return .error "arithmetic AC: spectral or magnitude overflow"
+              | some (vals, a1) =>
+                a := a1
+                for (k, v) in vals do st := st.set s.ci blk (Gen.naturalOrder.getD k 0) v
+            else if sc.ss != 0 then
+              if sc.ah == 0 then
+                match Arith.decodeACband a s.ta (tabs.acK.getD s.ta 5) sc.ss sc.se with
+                | none => return .error "arithmetic AC first: spectral or magnitude overflow"
+                | some (vals, a1) =>
+                  a := a1
+                  for (k, v) in vals do st := st.set s.ci blk (Gen.naturalOrder.getD k 0) (s16 ((v * 2 ^ sc.al) % 65536).toNat)
+              else
+                match arithACRefine a st s.ci blk s.ta sc.ss sc.se sc.al with
+                | none => return .error "arithmetic AC refinement: spectral overflow"
+                | some (st', a1) => st := st'; a := a1
+      mcu := mcu + 1
   return .ok st
 
 /-- split entropy-coded data starting at `i` into intervals; returns intervals, index of the
@@ -381,6 +508,16 @@ def decode (bytes : List Nat) : Except String Result := Id.run do
       ri := u16 bs p
     else if m == 0xCC then
       arith := true
+      let mut q := p
+      while q + 1 < e do
+        let idx := bs.getD q 0
+        let v := bs.getD (q + 1) 0
+        if idx < 16 then
+          if v % 16 > v / 16 then return .error "DAC: L > U"
+          tabs := { tabs with dcL := tabs.dcL.setIfInBounds idx (v % 16), dcU := tabs.dcU.setIfInBounds idx (v / 16) }
+        else if idx < 32 then tabs := { tabs with acK := tabs.acK.setIfInBounds (idx - 16) v }
+        else return .error "DAC: bad table index"
+        q := q + 2
     else if 0xC0 ≤ m && m ≤ 0xCF && m != 0xC4 && m != 0xC8 then
       if frame.isSome then return .error "two frame headers"
       let prec := bs.getD p 0
@@ -462,6 +599,10 @@ def decode (bytes : List Nat) : Except String Result := Id.run do
         nscans := nscans + 1
         if !arith && !lossless then
           match decodeScan fr tabs sc ri ivs store hmax vmax with
+          | .error er => return .error s!"scan {nscans}: {er}"
+          | .ok st => store := st
+        if arith && !lossless then
+          match decodeScanArith fr tabs sc ri ivs store hmax vmax with
           | .error er => return .error s!"scan {nscans}: {er}"
           | .ok st => store := st
         i := nxt
